@@ -296,4 +296,20 @@ def r9(F):
     return r
 
 
-RULES = [r5, r6, r7, r8, r9]
+def r6o(F):
+    r = RuleResult("R6o", "every operand of a chain is a single non-operator expression",
+                   "parse_operand_list, which cuts an operator chain into operands and operators for the climber, parses each operand "
+                   "with non_op_expression and nothing wider: an operand parsed with `expression` swallows the rest of the chain, which "
+                   "then reaches the climber as one operand and groups to the right whatever the levels are", floor=1)
+    fn = F.fn(P + "parse_operand_list")
+    cs = [(b, callee(t)) for b, t in fn.calls() if callee(t).startswith("ucglib::parse::")]
+    operands = [(b, c) for b, c in cs if c.split("::")[-1] in ("non_op_expression", "expression", "op_expression", "parse_expression", "parse_precedence")]
+    need(any(c.endswith("::non_op_expression") for b, c in operands), "parse_operand_list does not call non_op_expression")
+    wide = [(b, c) for b, c in operands if not c.endswith("::non_op_expression")]
+    r.inst("operand-parser", fn.where(wide[0][0]) if wide else fn.where(), not wide,
+           "operands are parsed with non_op_expression only" if not wide else
+           "an operand is parsed with %s: `a in b == c` reaches the climber as `a in <b == c>`" % wide[0][1].split("::")[-1])
+    return r
+
+
+RULES = [r5, r6, r6o, r7, r8, r9]
